@@ -82,7 +82,7 @@ def gen_case(rng, tier):
     return {'count': count, 'n': n, 'b': rng.choice([1, 2, 3, 10, 100, 1024, 2000, max(1, count), max(1, n)]),
             'rg': rng.choice([None, None, None, 1, 2, 7, 100, 500]), 'compression': rng.choice(CODECS),
             'schema': rng.choice(['flat', 'nested']), 'via': rng.choice(['path', 'path', 'fileobj', 'open_obj']),
-            'resub': rng.random() < 0.4, 'salt': rng.randint(0, 1000)}
+            'resub': rng.random() < 0.4, 'salt': rng.randint(0, 1000), 'dump_twice': rng.random() < 0.3}
 
 
 def cases(tier, rng):
@@ -94,6 +94,11 @@ def cases(tier, rng):
     c = dict(base)
     c.update(count=9, n=4, b=2, resub=True, schema='nested', via='fileobj', compression='zstd', rg=3)
     yield c
+    # the dump observable subscribed twice (a periodic re-export to the same path): the file holds the rows once
+    for count, n in [(3, 8), (7, 3), (4, 2), (0, 4)]:
+        c = dict(base)
+        c.update(count=count, n=n, dump_twice=True)
+        yield c
     m = {'quick': 70, 'thorough': 900, 'search': 120}[tier]
     for _ in range(m):
         yield gen_case(rng, tier)
@@ -140,7 +145,11 @@ def real(case):
         kw = {'batch_size': case['n'], 'row_group_size': case['rg'], 'compression': case['compression']}
         if case['via'] == 'open_obj':
             kw['open_obj'] = my_open
-        rx.from_(rows).pipe(rsparquet.dump_to_file(target, schema, **kw)).subscribe(
+        dump = rx.from_(rows).pipe(rsparquet.dump_to_file(target, schema, **kw))
+        if case.get('dump_twice') and buf is None:
+            # an earlier subscription of the same dump observable wrote the same rows to the same path
+            dump.subscribe(on_next=lambda i: None, on_error=lambda e: res['errors'].append('dump1:' + type(e).__name__))
+        dump.subscribe(
             on_next=lambda i: None, on_completed=on_completed, on_error=lambda e: res['errors'].append('dump:' + type(e).__name__))
         try:
             data = buf.getvalue() if buf is not None else open(path, 'rb').read()
@@ -252,6 +261,10 @@ def nontrivial(case, r):
 
 
 def tags(case, r):
+    return _tags(case, r) + (['dump-subscribed-twice'] if case.get('dump_twice') and case['via'] != 'fileobj' else [])
+
+
+def _tags(case, r):
     n, c = case['n'], case['count']
     rel = '0' if c == 0 else 'fewer' if c < n else 'equal' if c == n else 'multiple' if c % n == 0 else 'not-multiple'
     return ['count=' + rel, 'compression=' + case['compression'], 'schema=' + case['schema'], 'via=' + case['via'],
